@@ -3,6 +3,7 @@ extern crate serde_derive;
 
 mod blockrig;
 mod brokerdrv;
+mod resprig;
 mod sched;
 
 use std::collections::HashMap;
@@ -123,6 +124,23 @@ fn cmd_blocking_runs(m: &HashMap<String, String>) -> i32 {
     0
 }
 
+fn cmd_resp_cases(m: &HashMap<String, String>) -> i32 {
+    let out = m.get("out").expect("--out");
+    let f = std::fs::File::create(out).expect("create");
+    let mut w = BufWriter::new(f);
+    resprig::run(
+        &mut w,
+        m.get("mode").map(|s| s.as_str()).unwrap_or("bytes"),
+        geti(m, "maxlen", 4usize),
+        geti(m, "count", 1000u64),
+        geti(m, "seed", 1u64),
+        geti(m, "part", 0u64),
+        geti(m, "parts", 1u64),
+    );
+    w.flush().ok();
+    0
+}
+
 fn main() {
     let args: Vec<String> = std::env::args().collect();
     if args.len() < 2 {
@@ -138,6 +156,7 @@ fn main() {
         "broker-traces" => cmd_broker_traces(&m),
         "broker-replay" => cmd_broker_replay(&m),
         "blocking-runs" => cmd_blocking_runs(&m),
+        "resp-cases" => cmd_resp_cases(&m),
         other => {
             eprintln!("unknown subcommand {}", other);
             2
